@@ -69,6 +69,13 @@ class Ev:
         self.body = fn_body(fn)
         self.site = 0
         self.unknown = []
+        # the evaluator reads code vectors as values (literals, concatenations, maps over children); one that is built up by
+        # mutation (push / extend inside a closure ..) has contents it cannot see - fail closed instead of reading it as empty
+        for n_ in nodes(self.body, "MethodCall"):
+            if n_["m"] in ("push", "extend", "append", "insert", "extend_from_slice", "push_front", "splice"):
+                r_ = peel(n_["recv"])
+                if r_.get("k") == "Path" and r_.get("res") == "Local" and is_code_ty(r_.get("ty", "")):
+                    self.unknown.append(("code-vector-built-by-mutation", r_.get("name"), line_of(n_)))
 
     # ---- descriptors of AST children
     def child(self, e, env):
